@@ -5,10 +5,10 @@ that is not a plain re-use of the native function records an assumption text in 
 differential validation of these models against the real library lives in pyvc/libcheck.py.
 """
 from __future__ import annotations
-import builtins, datetime, calendar, copy, enum, functools, itertools, math, numbers, operator, re, types, inspect
+import builtins, datetime, calendar, fractions, copy, enum, functools, itertools, math, numbers, operator, re, types, inspect
 import z3
 from .values import *
-from .interp import _MISSING, to_z3, num_pair, mk_ite, tuple_iter, Frame
+from .interp import _MISSING, to_z3, num_pair, mk_ite, tuple_iter, Frame, nan_of, any_nan
 from . import strings as STR
 from . import source as S
 
@@ -78,8 +78,13 @@ F_NPDF = z3.Function("norm_pdf", R, R)
 F_WEEKDAY = z3.Function("weekday", z3.IntSort(), z3.IntSort(), z3.IntSort())
 
 
+fractions_Fraction = fractions.Fraction
+
+
 def deep_concrete(v, depth=0):
-    if isinstance(v, (SV, Obj, SStr, SSeq, SRange, LibObj, Func, Bound, ExcVal, tuple_iter)):
+    from .ndarray import NDArr
+    from .interp import LazyGen
+    if isinstance(v, (SV, Obj, SStr, SSeq, SRange, LibObj, Func, Bound, ExcVal, tuple_iter, NDArr, LazyGen)):
         return False
     if depth > 6:
         return False
@@ -91,6 +96,8 @@ def deep_concrete(v, depth=0):
 
 
 def real_of(v):
+    if isinstance(v, fractions_Fraction):
+        return z3.RealVal(str(v))
     t = to_z3(v)
     if z3.is_int(t):
         t = z3.ToReal(t)
@@ -107,6 +114,8 @@ class Lib:
         self.extra_getattr = []
         self.extra_call = []
         self._install()
+        from .ndarray import Numpy
+        Numpy(self)
 
     # ------------------------------------------------------------------ registration
     def _install(self):
@@ -128,9 +137,11 @@ class Lib:
         T[itertools.chain.from_iterable] = lambda I, a, k, n: tuple_iter([x for it in I.iterate(a[0], n) for x in I.iterate(it, n)])
         T[itertools.accumulate] = self.c_accumulate
         T[itertools.repeat] = self.c_repeat
-        T[operator.add] = lambda I, a, k, n: I.binop("+", a[0], a[1], n)
-        T[operator.mul] = lambda I, a, k, n: I.binop("*", a[0], a[1], n)
-        T[operator.sub] = lambda I, a, k, n: I.binop("-", a[0], a[1], n)
+        for opname, sym in (("add", "+"), ("sub", "-"), ("mul", "*"), ("truediv", "/"), ("floordiv", "//"), ("mod", "%"),
+                            ("pow", "**"), ("gt", ">"), ("lt", "<"), ("ge", ">="), ("le", "<="), ("eq", "=="), ("ne", "!=")):
+            T[getattr(operator, opname)] = (lambda I, a, k, n, sym=sym: I.compare(sym, a[0], a[1], n) if sym in ("==", "!=", "<", "<=", ">", ">=")
+                                            else I.binop(sym, a[0], a[1], n))
+        T[operator.neg] = lambda I, a, k, n: I.unary(__import__("ast").USub(), a[0], n)
         T[math.log] = lambda I, a, k, n: self.m_log(I, a[0], n)
         T[math.exp] = lambda I, a, k, n: self.m_exp(I, a[0], n)
         T[math.sqrt] = lambda I, a, k, n: self.m_sqrt(I, a[0], n)
@@ -416,7 +427,16 @@ class Lib:
     def symbolic_comprehension(self, I, e, fr, src, kind):
         gen = e.generators[0]
         if gen.ifs:
-            raise Unsupported("filtered comprehension over a sequence of symbolic length")
+            # a filter that is concretely True for the generic element is a no-op (e.g. `if x is not None`)
+            probe = z3.Int(I.ctx.fresh_name("k!filter"))
+            base0 = (lambda i: I.binop("+", src.start, I.binop("*", i, src.step))) if isinstance(src, SRange) else src.getter
+            f0 = Frame(fr.func, parent=fr.parent)
+            f0.locals.update(fr.locals)
+            I.assign(gen.target, base0(SV(probe)), f0)
+            for cnd in gen.ifs:
+                r = I.truth_sym(I.eval(cnd, f0), cnd)
+                if r is not True:
+                    raise Unsupported("filtered comprehension over a sequence of symbolic length")
         if isinstance(src, SRange):
             length = self.range_len(I, src)
             base = lambda i: I.binop("+", src.start, I.binop("*", i, src.step))
@@ -461,7 +481,7 @@ class Lib:
         I.ctx.note_assumption(A_REAL)
         if isinstance(b, float) and b == 0.5:
             pass
-        return SV(F_POW(real_of(a), real_of(b)))
+        return SV(F_POW(real_of(a), real_of(b)), any_nan(a, b))
 
     # ------------------------------------------------------------------ calls
     def call(self, I, fn, args, kwargs, node):
@@ -588,6 +608,8 @@ class Lib:
             if x.is_int:
                 return SV(z3.ToReal(x.t))
             raise Unsupported("float() of symbolic non-number")
+        if type(x).__name__ == "NDArr":
+            return self.b_float(I, [self.numpy.item(I, x, n)], k, n)
         if isinstance(x, (SStr, Obj)):
             raise Unsupported("float() of structural string/object")
         try:
@@ -623,6 +645,10 @@ class Lib:
             return STR.length(I, x)
         if isinstance(x, tuple_iter):
             I.fail("TypeError", "object of type 'generator' has no len()", n)
+        if type(x).__name__ == "NDArr":
+            if x.ndim == 0:
+                I.fail("TypeError", "len() of unsized object", n)
+            return x.shape[0]
         if isinstance(x, Obj):
             m = I.lookup_class_attr(x.cls, "__len__")
             if m is _MISSING:
@@ -789,8 +815,13 @@ class Lib:
             return types.FunctionType if isinstance(x, Func) else types.MethodType
         if isinstance(x, ExcVal):
             return x.cls
-        if isinstance(x, tuple_iter):
+        if isinstance(x, tuple_iter) or type(x).__name__ == "LazyGen":
             return types.GeneratorType
+        if type(x).__name__ == "NDArr":
+            import numpy
+            return numpy.ndarray
+        if isinstance(x, LibFn):
+            return types.BuiltinFunctionType
         return type(x)
 
     def libobj_type(self, x):
@@ -820,7 +851,7 @@ class Lib:
             if isinstance(raw, property):
                 return self._try_getattr(I, x, name, n)
             return True
-        if isinstance(x, (SV, SStr, SSeq, SRange, LibObj, tuple_iter)):
+        if isinstance(x, (SV, SStr, SSeq, SRange, LibObj, tuple_iter)) or type(x).__name__ in ("NDArr", "LazyGen"):
             t = self.type_of(I, x)
             if isinstance(x, LibObj) and x.kind == "date":
                 return name in ("year", "month", "day", "toordinal")
@@ -854,6 +885,21 @@ class Lib:
 
     def _minmax(self, I, a, k, n, is_max):
         key = k.get("key")
+        if len(a) == 1 and isinstance(a[0], (SSeq, SRange)) and self.symbolic_comprehension_source(I, a[0]) and key is None:
+            from .ndarray import idxseq
+            seq = idxseq(I, a[0], n)
+            if seq is None or seq.affine is None:
+                raise Unsupported("min/max over a non-affine sequence of symbolic length")
+            a0, step = seq.affine
+            ln = to_z3(seq.length)
+            last = a0 + (ln - 1) * step
+            if not I.ctx.branch(ln > 0):
+                if "default" in k:
+                    return k["default"]
+                I.raise_exc(ValueError, "min()/max() arg is an empty sequence")
+            first_is_min = step > 0
+            pick_first = first_is_min != is_max
+            return SV(z3.simplify(a0 if pick_first else last))
         if len(a) == 1:
             items = I.iterate(a[0], n)
         else:
@@ -919,6 +965,26 @@ class Lib:
         return tuple_iter([(I.binop("+", i, start) if start else i, v) for i, v in enumerate(I.iterate(x, n))])
 
     def b_zip(self, I, a, k, n):
+        from .interp import LazyGen
+        if any(isinstance(x, LazyGen) for x in a):
+            finite = [I.iterate(x, n) for x in a if not isinstance(x, LazyGen)]
+            if not finite:
+                lists = [I.iterate(x, n) for x in a]
+            else:
+                m = min(len(x) for x in finite)
+                lists = []
+                for x in a:
+                    if isinstance(x, LazyGen):
+                        items = []
+                        while len(items) < m:
+                            v = x.next()
+                            if v is LazyGen.DONE:
+                                break
+                            items.append(v)
+                        lists.append(items)
+                    else:
+                        lists.append(I.iterate(x, n))
+            return tuple_iter(list(zip(*lists)))
         lists = [I.iterate(x, n) for x in a]
         if k.get("strict") and len({len(x) for x in lists}) > 1:
             I.raise_exc(ValueError, "zip() arguments have different lengths")
@@ -978,7 +1044,15 @@ class Lib:
         return SV(z3.And(*acc)) if acc else True
 
     def b_next(self, I, a, k, n):
+        from .interp import LazyGen
         it = a[0]
+        if isinstance(it, LazyGen):
+            v = it.next()
+            if v is LazyGen.DONE:
+                if len(a) > 1:
+                    return a[1]
+                I.raise_exc(StopIteration)
+            return v
         if isinstance(it, tuple_iter):
             if it.pos < len(it.items):
                 v = it.items[it.pos]
@@ -990,8 +1064,9 @@ class Lib:
         raise Unsupported(f"next() on {type(it).__name__}")
 
     def b_iter(self, I, a, k, n):
+        from .interp import LazyGen
         x = a[0]
-        if isinstance(x, tuple_iter):
+        if isinstance(x, (tuple_iter, LazyGen)):
             return x
         if isinstance(x, (SSeq, SRange)) and self.symbolic_comprehension_source(I, x):
             return x
@@ -1194,6 +1269,11 @@ class Lib:
                 return tuple(dc(x) for x in v)
             if isinstance(v, set):
                 return set(v)
+            if type(v).__name__ == "NDArr":
+                if id(v) in memo:
+                    return memo[id(v)]
+                memo[id(v)] = v.copy()
+                return memo[id(v)]
             if isinstance(v, LibObj):
                 h = self.deepcopy_libobj(I, v, dc)
                 if h is not _MISSING:
@@ -1255,7 +1335,7 @@ class Lib:
             if x == 1:
                 return 0.0
         I.ctx.note_assumption(A_REAL)
-        return SV(F_LOG(real_of(x)))
+        return SV(F_LOG(real_of(x)), nan_of(x))
 
     def m_exp(self, I, x, n):
         if isinstance(x, Obj):
@@ -1263,13 +1343,13 @@ class Lib:
         if isinstance(x, (int, float)) and x == 0:
             return 1.0
         I.ctx.note_assumption(A_REAL)
-        return SV(F_EXP(real_of(x)))
+        return SV(F_EXP(real_of(x)), nan_of(x))
 
     def m_sqrt(self, I, x, n):
         if isinstance(x, Obj):
             return I.call(I.getattr(x, "sqrt", n), [], {}, n)
         I.ctx.note_assumption(A_REAL)
-        return SV(F_SQRT(real_of(x)))
+        return SV(F_SQRT(real_of(x)), nan_of(x))
 
     def m_minmax(self, I, x, y, is_max, n):
         if isinstance(x, Obj):
@@ -1279,7 +1359,7 @@ class Lib:
 
     def m_isnan(self, I, x, n):
         if isinstance(x, SV):
-            return False     # symbolic reals are never NaN (NaN is modelled explicitly as None/option where needed)
+            return SV(x.nan) if x.nan is not None else False
         if isinstance(x, (int, float)):
             return x != x
         raise Unsupported("isnan of non-scalar")
